@@ -54,7 +54,7 @@ def generate_output_configuration(commandLineArguments, oConfig):
         dOutputConfiguration["indent"] = configuration["indent"]
         dOutputConfiguration["pragma"] = {}
         dOutputConfiguration["pragma"]["patterns"] = configuration["pragma"]["patterns"]
-        for sKey in ["linesep", "severity", "skip_phase"]:
+        for sKey in ["file_rules", "linesep", "severity", "skip_phase"]:
             if sKey in configuration:
                 dOutputConfiguration[sKey] = configuration[sKey]
         with open(commandLineArguments.output_configuration, "w") as json_file:
